@@ -745,6 +745,52 @@ def simple_client_parity(result):
     return n
 
 
+def reconnect_parity(result):
+    """The reconnection machinery of Client and AsyncClient in lockstep: the
+    fault sequences of C10's environment (which attempts fail / are refused,
+    a second loss, shutdown during a back-off) with auth given as a value and
+    as a callable; raw observations (attempt parameters, back-off waits,
+    CONNECT packets, handler log, final state) must agree."""
+    from . import c10
+    n = 0
+    cases = []
+    for wd in [(), ('fail',), ('refuse', 'ok'), ('fail', 'refuse', 'ok'),
+               ('fail', 'fail', 'fail')]:
+        for mode in ('value', 'callable'):
+            for extra in (None, 'second-loss'):
+                cases.append(('transport-error', True, wd, None, extra,
+                              (1, 5, 0.5, 0), 0.5, mode))
+            cases.append(('transport-error', True, wd, len(wd) + 1, None,
+                          (1, 5, 0.5, 0), 0.5, mode))
+    for cause in c10.CAUSES:
+        cases.append((cause, True, ('fail', 'ok'), None, None,
+                      (1, 5, 0.5, 3), 0.5, 'value'))
+    for case in cases:
+        obs = []
+        for is_async in (False, True):
+            o = {}
+            c10.run_case(is_async, *case, obs=o)
+            obs.append(o)
+            n += 1
+        if obs[0] != obs[1]:
+            diff = {k: (obs[0].get(k), obs[1].get(k))
+                    for k in set(obs[0]) | set(obs[1])
+                    if obs[0].get(k) != obs[1].get(k)}
+            for k, (a, b) in sorted(diff.items()):
+                result.violation(
+                    'C14/reconnect/' + k, f'fault sequence {case}: Client '
+                    f'{k} = {a!r:.300}, AsyncClient {b!r:.300}',
+                    {'case': list(case), 'rerun': {
+                        'module': 'mc.checks.c14',
+                        'func': 'rerun_reconnect'}})
+    return n
+
+
+def rerun_reconnect(result):
+    common.setup_imports()
+    reconnect_parity(result)
+
+
 def run(tier, seed, result):
     notes = []
     depth_s = 4 if tier == 'quick' else 7
@@ -759,6 +805,9 @@ def run(tier, seed, result):
     notes.append(f'pubsub: {st}')
     n = simple_client_parity(result)
     result.add('simple_client_scenarios', n)
+    n = reconnect_parity(result)
+    result.add('reconnect_scenarios', n)
+    notes.append(f'reconnection twins: {n} runs')
     result.assumptions += [
         'handlers run inline (async_handlers off); session ids renamed by '
         'order of generation on each side',
